@@ -59,3 +59,56 @@ Qed.
 
 Lemma is_empty_len {A} (l : list A) : is_empty_of l = (len_of l =? 0).
 Proof. destruct l; [reflexivity|]. unfold len_of. cbn [is_empty_of length]. symmetry. apply N.eqb_neq. lia. Qed.
+
+(** * Sums of u64 values: the outcome does not depend on the order *)
+From Coq Require Import Permutation.
+
+Lemma mul_p_ok prof a b : a * b <= U64MAX -> mul_p prof a b = Val (a * b).
+Proof.
+  intros H. destruct prof; cbn [mul_p].
+  - destruct (a * b <=? U64MAX) eqn:E; [reflexivity | lia].
+  - unfold mul_wrap. f_equal. apply N.mod_small. unfold two64, U64MAX in *. lia.
+Qed.
+
+Lemma sum_from_debug l : forall acc, acc <= U64MAX ->
+  sum_from Debug l acc = if acc + sum_N l <=? U64MAX then Val (acc + sum_N l) else Trap.
+Proof.
+  induction l as [|x r IH]; intros acc Ha; cbn [sum_from sum_N add_p].
+  - rewrite N.add_0_r. destruct (acc <=? U64MAX) eqn:E; [reflexivity | lia].
+  - destruct (acc + x <=? U64MAX) eqn:E; cbn [bindT].
+    + apply N.leb_le in E. rewrite IH by exact E. rewrite N.add_assoc. reflexivity.
+    + destruct (acc + (x + sum_N r) <=? U64MAX) eqn:E2; [lia | reflexivity].
+Qed.
+
+Lemma sum_from_release l : forall acc,
+  sum_from Release l acc = Val (if l then acc else (acc + sum_N l) mod two64).
+Proof.
+  induction l as [|x r IH]; intros acc; cbn [sum_from sum_N add_p bindT]; [reflexivity|].
+  rewrite IH. f_equal. unfold add_wrap. destruct r as [|y r'].
+  - cbn [sum_N]. rewrite N.add_0_r. reflexivity.
+  - rewrite N.add_mod_idemp_l by (unfold two64; lia). f_equal. lia.
+Qed.
+
+Lemma sum_N_perm l l' : Permutation l l' -> sum_N l = sum_N l'.
+Proof. induction 1; cbn [sum_N]; lia. Qed.
+
+(** [iter.sum::<u64>()] over the same values in another order: the same value, the same wrap, the
+    same panic *)
+Lemma sum_p_perm prof l l' : Permutation l l' -> sum_p prof l = sum_p prof l'.
+Proof.
+  intros P. unfold sum_p. destruct prof.
+  - rewrite !sum_from_debug by (unfold U64MAX; lia). rewrite (sum_N_perm l l' P). reflexivity.
+  - rewrite !sum_from_release. rewrite (sum_N_perm l l' P).
+    destruct l as [|a l], l' as [|b l']; try reflexivity; exfalso;
+      first [ apply Permutation_nil in P; discriminate P
+            | apply Permutation_sym, Permutation_nil in P; discriminate P ].
+Qed.
+
+Lemma sum_p_ok prof l : sum_N l <= U64MAX -> sum_p prof l = Val (sum_N l).
+Proof.
+  intros H. unfold sum_p. destruct prof.
+  - rewrite sum_from_debug by (unfold U64MAX; lia). cbn [N.add].
+    destruct (0 + sum_N l <=? U64MAX) eqn:E; [reflexivity | lia].
+  - rewrite sum_from_release. destruct l; [reflexivity|]. f_equal.
+    apply N.mod_small. unfold two64, U64MAX in *. lia.
+Qed.
